@@ -87,25 +87,26 @@ def paths(v, fb):
     inr = fb[0] <= v <= fb[1]
     norm = "Fix" if inr else "Big"
     out = [("literal", "X = %s" % lit(v), norm),
-           ("number_codes", "atom_codes('%d', Cs0), number_codes(X, Cs0)" % v, norm),
+           ("number_codes", "atom_codes('%d', PCs0), number_codes(X, PCs0)" % v, norm),
            ("number_chars", "number_chars(X, \"%d\")" % v, norm),
            ("read_term", "read_from_chars(\"%d. \", X)" % v, norm),
            ("through-bignum", "X is 2^60-2^60+%s" % lit(v), "Big"),
            ("mul-div", "X is (%s*2^70)//2^70" % lit(v), "Big"),
            ("rdiv", "X is %s*3 rdiv 3" % lit(v), None)]
     if 0 <= v <= 255:
-        out.append(("length", "findall(a, between(1,%d,_), L0), length(L0, X)" % v, norm))
-        out.append(("atom_length", "findall(0'a, between(1,%d,_), Cs0), atom_codes(A0, Cs0), atom_length(A0, X)" % v, norm))
+        out.append(("length", "findall(a, between(1,%d,_), PL0), length(PL0, X)" % v, norm))
+        out.append(("atom_length", "findall(0'a, between(1,%d,_), PCs0), atom_codes(PA0, PCs0), atom_length(PA0, X)" % v, norm))
     if v >= 1:
-        out.append(("succ", "P0 = %d, succ(P0, X)" % (v - 1), norm))
+        out.append(("succ", "PP0 = %d, succ(PP0, X)" % (v - 1), norm))
     if v >= 0:
-        out.append(("succ-inverse", "S0 = %d, succ(X, S0)" % (v + 1), norm))
+        out.append(("succ-inverse", "PS0 = %d, succ(X, PS0)" % (v + 1), norm))
     if int(float(v)) == v:
         out.append(("truncate-float", "X is truncate(float(%s))" % lit(v), norm))
     return out
 
 
 YN = "(%s -> %s = y ; %s = n)"
+LIMIT = int(os.environ.get("C05_REPORT_LIMIT", "3"))
 
 
 def consumers(v):
@@ -139,11 +140,22 @@ def consumers(v):
     return c
 
 
+def norm_json(t):
+    """a rational cell n/1 is == to the integer n; the answer channel prints it as a rational"""
+    if isinstance(t, dict):
+        if "r" in t and t["r"][1] == "1":
+            return {"i": t["r"][0]}
+        return {k: norm_json(x) for k, x in t.items()}
+    if isinstance(t, list):
+        return [norm_json(x) for x in t]
+    return t
+
+
 def outcome(ans):
     if ans and isinstance(ans[0], dict):
         a = ans[0]
         if "b" in a and "R" in a["b"]:
-            return ("val", json.dumps(a["b"]["R"], sort_keys=True))
+            return ("val", json.dumps(norm_json(a["b"]["R"]), sort_keys=True))
         f = core.error_formal(a)
         if f is not None:
             return ("err", json.dumps(f, sort_keys=True))
@@ -188,17 +200,16 @@ def run(ctx):
     evaluations = 0
 
     def report(key, what, q, impl, spec):
-        if reported.get(key, 0) >= 3:
+        if reported.get(key, 0) >= LIMIT:
             reported[key] = reported.get(key, 0) + 1
             return
         reported[key] = reported.get(key, 0) + 1
         failures.append({"key": key, "what": what, "input": q, "impl": impl, "spec": spec, "property_fails": True})
 
     def fkey(cid, pid):
-        if cid == "static":
-            return "index:literal-bignum-key" if pid == "literal" else ("index:computed-bignum-key" if pid in ("through-bignum", "mul-div") else "index:%s-key" % pid)
-        if cid == "dynamic":
-            return "index:literal-bignum-key-dynamic" if pid == "literal" else ("index:computed-bignum-key-dynamic" if pid in ("through-bignum", "mul-div") else "index:%s-key-dynamic" % pid)
+        if cid in ("static", "dynamic"):
+            k = "index:literal-bignum-key" if pid == "literal" else ("index:rational-key" if pid == "rdiv" else "index:computed-bignum-key")
+            return k + ("-dynamic" if cid == "dynamic" else "")
         return "%s:%s" % (cid, pid)
 
     for v in VALUES:
@@ -210,8 +221,21 @@ def run(ctx):
             continue
         outs = [outcome(a) for a in rs]
         expected = {cid: outs[i] for i, (pid, cid, rep) in enumerate(meta) if pid == "literal"}
+        # does the path produce the value at all?  (first answer of the arith consumer: X =:= v)
+        wrong = set()
+        for i, (pid, cid, rep) in enumerate(meta):
+            if cid == "arith":
+                o = outs[i]
+                ok = o[0] == "val" and json.loads(o[1]).get("s", "?")[0:1] == "y"
+                if not ok:
+                    wrong.add(pid)
+                    xq = qs[i].split(", (X =:=")[0] + "."
+                    report("path:%s:wrong-value" % pid, "the production path does not yield the integer %d" % v, xq, show(o) + " for [X=:=v, X=\\=v+1, X<v+1, X>=v, X+1==v+1]", "X =:= %d" % v)
         for i, (pid, cid, rep) in enumerate(meta):
             o = outs[i]
+            if pid in wrong:
+                evaluations += 1
+                continue
             evaluations += 1
             dist["cells"] += 1
             dist["by_path"][pid] = dist["by_path"].get(pid, 0) + 1
@@ -231,11 +255,11 @@ def run(ctx):
                 if cid == "unify":
                     cs = ["check_unify %s %s %s" % (a, zc(v), "true" if yn(R[0]) else "false"), "check_unify %s %s %s" % (a, zc(v + 1), "true" if yn(R[1]) else "false")]
                 elif cid == "eq":
-                    cs = ["check_compare %s %s %d" % (a, zc(v), 0 if yn(R[0]) else 1), "check_compare %s %s %d" % (a, zc(v + 1), 0 if yn(R[2]) else -1)]
+                    cs = ["check_compare %s %s %s" % (a, zc(v), zc(0 if yn(R[0]) else 1)), "check_compare %s %s %s" % (a, zc(v + 1), zc(0 if yn(R[2]) else -1))]
                 elif cid == "compare":
                     code = {"<": -1, "=": 0, ">": 1}
-                    cs = ["check_compare %s %s %d" % (a, zc(v), code[R[0]["a"]]), "check_compare %s %s %d" % (a, zc(v - 1), code[R[1]["a"]]),
-                          "check_compare %s %s %d" % (a, zc(v + 1), -code[R[2]["a"]])]
+                    cs = ["check_compare %s %s %s" % (a, zc(v), zc(code[R[0]["a"]])), "check_compare %s %s %s" % (a, zc(v - 1), zc(code[R[1]["a"]])),
+                          "check_compare %s %s %s" % (a, zc(v + 1), zc(-code[R[2]["a"]]))]
                 elif cid == "sort":
                     s1 = [int(x["i"]) for x in R[0]["l"]]
                     s2 = [int(x["c"][1]["i"]) for x in R[1]["l"]]
